@@ -38,6 +38,14 @@ fn parse_file(file: &mut SliceFile, ast: &mut Ast, diagnostics: &mut Diagnostics
     let parser = Parser::new(&file.relative_path, ast, diagnostics);
     let Ok((attributes, module, definitions)) = parser.parse_slice_file(preprocessed_text) else { return };
 
+    // The file's attributes are stored even if errors were reported while parsing it: lints can be reported alongside
+    // these errors, and whether such a lint is allowed depends on the attributes of the file it was reported in.
+    // Nothing else is kept of a file with errors.
+    file.attributes = attributes;
+    if diagnostics.has_errors() {
+        return;
+    }
+
     // Issue a syntax error if the user had definitions but forgot to declare a module.
     // The error points at the first of those definitions, so that the user can tell which file it's about.
     if let (Some(first_definition), None) = (definitions.first(), &module) {
@@ -51,6 +59,5 @@ fn parse_file(file: &mut SliceFile, ast: &mut Ast, diagnostics: &mut Diagnostics
 
     // Store the parsed data in the `SliceFile` it was parsed from.
     file.module = module.map(|m| ast.add_module(m));
-    file.attributes = attributes;
     file.contents = definitions;
 }
